@@ -153,6 +153,12 @@ def instance_fails(kind, desc, sig):
 
 def run(ctx):
     ctx.prove(props=["C02", "C02_forms"])
+    # model regenerated from the source of RoutingProblem.get_qubo, proved equal to Penalty.get_qubo (notes/C02_gen.md)
+    import translate_getqubo as TG
+    ctx.gen_step("getqubo", TG.translate, "C02_gen",
+                 "harness/translate_getqubo.py (ast -> Gallina printer for numpy/scipy matrix expressions, `is None` / truth-value "
+                 "tests, raise/return, into the value combinators of coq/theories/PyMat.v, whose dense meaning of "
+                 "transpose/dot/diags/atleast_1d/+/* is modelled, not verified)")
     rng = ctx.rng
     count = 300 if ctx.quick else 3000
     max_n = 14 if ctx.quick else 16
@@ -196,6 +202,9 @@ def run(ctx):
                     "make_feasible": case["desc"]["make_feasible"], "mf_outcome": rp.vq_mf})
     ctx.count(evaluations=n_eval, traces=len(cases) * len(CONFIGS))
     ctx.cov["input_distribution"] = stats
+    # path-based problems that grow between two queries (props/c02_grow.py)
+    from props import c02_grow
+    stats["path_grown_between_queries"] = c02_grow.run_stream(ctx, check_instance, 25 if ctx.quick else 250)
     ctx.cov["rule"] = ("random VRPTW instances (1-4 customers, integer windows 0..8, arc density 0.2-1, unreachable customers, "
                        "customers without exit, depot self-arc, negative/zero costs, unsorted grids, V 0..3, L 2..5, strict/non-strict, "
                        "explicit valid and invalid candidate routes) built through the real arc/path/sequence classes, fresh or after "
